@@ -21,6 +21,7 @@ META = {
                     "lateral offset is bounded in norm (20% of the neutral height) as the property words it",
                     "rotation recovered to 1e-3 rad, position and lengths to 1e-3 of the neutral height"],
 }
+REQUIRED_REACH = ['kinematics/sp_model.py:SP.IK', 'kinematics/sp_model.py:SP.FK', 'kinematics/sp_model.py:SP.spinCustom', 'kinematics/sp_model.py:SP.move', 'kinematics/sp_model.py:newSP', 'kinematics/sp_model.py:loadSP']
 REQUIRED_CLAUSES = ["geometry", "ik.lengths", "ik.invariance", "ik.published_joints", "fk.recover.mode0", "fk.recover.mode1", "fk.after_move", "fk.after_spin"]
 
 
